@@ -8,7 +8,7 @@
    may overwrite between two library calls; every later output (table dumps,
    notifications, DHCP replies, decline/release frames, purge probes) reads
    retained fields through [deref store]. *)
-From PV Require Import Base.Prelude Base.Text Model.Alias Proofs.Alias Model.AliasHunt Proofs.AliasHunt.
+From PV Require Import Base.Prelude Base.Text Model.Alias Proofs.Alias Model.AliasHunt Proofs.AliasHunt Model.AliasOut Proofs.AliasOut.
 
 (* Invariant over every history (frames of every handled kind arriving in any
    buffers, any scribbles in between, any library calls): no retained field is
@@ -119,3 +119,29 @@ Example C10_hunt4_example :
   h4transcript true [192;168;0;11] (h4shared ex_hunt_scr 0 ex_hunt4_hist) = [[item_announce [2;0;0;0;0;1]]; [item_announce [2;0;0;0;0;1]]].
 Proof. exact ex_hunt4_runs. Qed.
 Print Assumptions C10_hunt4_example.
+
+(* ---------------------------------------------------------------- *)
+(* The way out (Model/AliasOut.v): values handed to the caller BY VALUE must not be the tables' own
+   storage, or a caller overwriting "its" value changes the retained state.  As found, five output
+   points share storage ([out_copies]): Notification.Addr.MAC, FindByMAC, IPAddrs, FindRouter, the
+   entries returned by ProcessMDNS (also kept in the cache); ProcessDNS / DNSFind copy. *)
+Theorem C10_outputs_do_not_alias_state_refuted : exists ops hp, crun out_copies ops hp <> hp.
+Proof. exact outputs_refuted. Qed.
+Print Assumptions C10_outputs_do_not_alias_state_refuted.
+
+(* outside the recorded classes: a caller that obtains values only through copying output points cannot
+   change the retained storage, whatever it writes *)
+Theorem C10_outputs_do_not_alias_state_partial : forall ops hp,
+  uses_only out_copies ops = true -> crun out_copies ops hp = hp.
+Proof. exact (outputs_partial out_copies). Qed.
+Print Assumptions C10_outputs_do_not_alias_state_partial.
+
+Example C10_outputs_partial_nonvacuous : uses_only out_copies [CGet OP_dns_entry 0; CWrite 0 [1;2;3]] = true.
+Proof. exact outputs_partial_nonvacuous. Qed.
+Print Assumptions C10_outputs_partial_nonvacuous.
+
+(* and it holds for every caller history once every output point copies *)
+Theorem C10_outputs_do_not_alias_state_if_copied : forall oc ops hp,
+  (forall k, oc k = true) -> crun oc ops hp = hp.
+Proof. exact outputs_do_not_alias. Qed.
+Print Assumptions C10_outputs_do_not_alias_state_if_copied.
